@@ -9,7 +9,7 @@ LEVEL = "model_checking"
 EXHAUSTIVE = True
 CHUNK = 1
 CASE_TIMEOUT = 900
-RULE = ("breadth-first search over all statement sequences up to the depth bound over a 42-statement alphabet in which every size path "
+RULE = ("breadth-first search over all statement sequences up to the depth bound over a 44-statement alphabet in which every size path "
         "is present (fixed sizes, sizes known only after a later symbol, address-dependent sizes, '. =' skips, repeats with parity-"
         "dependent bodies, inserted files, includes nested to depth 3, an included file and a repeat body with text behind a pending chunk, label-only and assignment lines), each sequence assembled as a "
         "fresh run under the link regimes {default base, .link first at 1000/1001/0/157770, .link last}; plus every ordered 1-3 tuple "
@@ -28,7 +28,7 @@ FILES6 = [["nop", "byte1"], ["even", "worddot"], ["blkbf", "mov4"], ["ascii3"], 
 
 
 def bound(tier):
-    return "depth %d complete over 42 statements (depth <= %d under all 7 regimes, deepest level under %d regimes); 584 file tuples x 7 regimes; 21 practice programs" % (
+    return "depth %d complete over 44 statements (depth <= %d under all 7 regimes, deepest level under %d regimes); 584 file tuples x 7 regimes; 21 practice programs" % (
         (4, 3, 3) if tier == "thorough" else (3, 2, 4))
 
 
